@@ -797,8 +797,10 @@ func (e *Engine) bubble() {
 	e.defBudget = 5_000_000 * e.scale
 	e.pctChange = map[int64]bool{}
 	if w.Sched.Strategy == "pct" {
+		// change points spread over a horizon drawn per world: worlds differ by orders of magnitude in length
+		horizon := []int{10, 30, 100, 300, 1000, 3000}[e.rng.Intn(6)]
 		for i := 0; i < w.Sched.PCTDepth; i++ {
-			e.pctChange[int64(e.rng.Intn(2000))] = true
+			e.pctChange[int64(e.rng.Intn(horizon))] = true
 		}
 	}
 	for i := range w.Tasks {
